@@ -5,10 +5,11 @@ CONSTANTS
   MaxBatch = 4
   MaxKills = 2
   MaxCycles = 3
-  DedupModes = {FALSE, TRUE}
+  DedupModes = {"none", "tags", "shrink"}
+  TagUnion = TRUE
   RecoverOnCrash = TRUE
   ListAllEntries = FALSE
   Emit = FALSE
-INVARIANTS ConservedAfterCleanCycle
+INVARIANTS ConservedExceptOpen
 VIEW view
 CHECK_DEADLOCK FALSE
